@@ -43,7 +43,37 @@ theorem blockWork_pos (bits w : Nat) (h : blockWork bits = some w) : 1 ≤ w := 
   | none => simp [hd] at h
   | some d => simp [hd] at h; rw [← h]; exact convertToWork_pos d
 
-/-- the bits values the repaired `ProcessHeader` rejects up front (they used to crash the process). -/
-def malformedBits (bits : Nat) : Bool := (convertToDifficulty bits).isNone
+/-- `!bitsAreValid(bits)` of /repo/headers/proof_of_work.go (repaired code): the bits values
+    `ProcessHeader` refuses up front — sign bit set, zero mantissa, a length byte of 0 or above 32,
+    or an effective length of one byte (on which `ConvertToDifficulty` panics). -/
+def malformedBits (bits : Nat) : Bool :=
+  let lengthByte := (bits / 2 ^ 24) % 256
+  let effective := if (bits / 2 ^ 16) % 256 == 0 then (lengthByte + 255) % 256 else lengthByte
+  (bits / 2 ^ 23) % 2 == 1 || bits % 2 ^ 23 == 0 || lengthByte == 0 || lengthByte > 32 || effective == 1
+
+/-- bits accepted by the guard never make the difficulty conversion panic. -/
+theorem convertToDifficulty_some_of_valid (bits : Nat) (h : malformedBits bits = false) :
+    (convertToDifficulty bits).isSome = true := by
+  unfold malformedBits at h
+  unfold convertToDifficulty
+  simp only [Bool.or_eq_false_iff, beq_eq_false_iff_ne, ne_eq, decide_eq_false_iff_not] at h
+  obtain ⟨⟨⟨⟨_, _⟩, _⟩, _⟩, h5⟩ := h
+  by_cases hn : ((bits / 2 ^ 16) % 256 == 0) = true
+  · simp only [hn, ↓reduceIte] at h5 ⊢
+    simp only [h5, ↓reduceIte]
+    split <;> (try split) <;> rfl
+  · simp only [hn, Bool.false_eq_true, ↓reduceIte] at h5 ⊢
+    simp only [h5, ↓reduceIte]
+    split <;> (try split) <;> rfl
+
+/-- the bits values the repaired `ProcessHeader` refuses include every word on which the
+    conversion panics. -/
+theorem malformed_of_panics (bits : Nat) (h : convertToDifficulty bits = none) : malformedBits bits = true := by
+  cases hm : malformedBits bits with
+  | true => rfl
+  | false =>
+    have := convertToDifficulty_some_of_valid bits hm
+    rw [h] at this
+    cases this
 
 end BRV.Work
